@@ -22,6 +22,19 @@ open Reval.G Reval.Disp
 theorem display_roundtrip_partial (o : Oracle) (sf : F64 → Str) (e : Expr) (h : Printable o sf e) :
     C07.ParsesTo o (dispToks sf e) e := display_parse h
 
+/-- … in executable form: the model parser, with its own fuel (proved sufficient in `Lemmas/Fuel.lean`), returns
+    exactly the printed tree on the printed tokens -/
+theorem display_roundtrip_tokens (o : Oracle) (sf : F64 → Str) (e : Expr) (h : Printable o sf e) :
+    parseToks o (dispToks sf e) = .ok e [] :=
+  (C07.parsesTo_iff_parseToks o e _).1 (display_parse h)
+
+/-- consequently the re-parsed rendering *is* the expression, so the two evaluate identically on every input -/
+theorem reparsed_rendering_evaluates_identically (o : Oracle) (sf : F64 → Str) (e e' : Expr) (h : Printable o sf e)
+    (hp : parseToks o (dispToks sf e) = .ok e' []) (env : Env) (rp : List Nat) (st : St) :
+    eval env rp e' st = eval env rp e st := by
+  rw [display_roundtrip_tokens o sf e h] at hp
+  cases hp; rfl
+
 /-- printing never changes grouping or operators: the printed tokens render the tree under the table, at every
     level the printed form can stand at (bitwise nodes bare, `-(…)`/`!(…)` unary, everything else atomic) -/
 theorem printed_form_is_a_rendering (o : Oracle) (sf : F64 → Str) (e : Expr) (h : Printable o sf e) :
